@@ -1244,7 +1244,7 @@ def fam_tls(rng, n, dist):
         mode, rfc = ALL_METHODS[i % 4]
         fault = rng.choice([None, None, "auth-refused", "ctl-handshake", "pbsz", "prot", "data-handshake", "truncate", "truncate",
                             "truncate", "unknown-ca", "unclean-close", "data-rogue-cert", "data-rogue-cert", "data-reset",
-                            "data-reset", "ctl-reset-after-auth"])
+                            "data-reset", "ctl-reset-after-auth", "upload-no-close-notify"])
         if i % 3 == 0:
             fault = "auth-refused"          # (a third of the family: AUTH TLS refused, each code of the list below in turn)
         verify = "unknown" if fault == "unknown-ca" else ("trusted" if fault == "data-rogue-cert" else rng.choice(["trusted", "trusted", "none"]))
@@ -1293,6 +1293,8 @@ def fam_tls(rng, n, dist):
                 df = "handshake"
             if fault == "data-reset" and k == 0:
                 df = "reset-before-handshake"
+            if fault == "upload-no-close-notify" and k == 0:
+                kind, df = "U", "no-close-notify"
             if fault == "truncate" and k == 0 and kind != "U":
                 df = "truncate"
             if fault == "data-rogue-cert" and k == rk:
@@ -1312,6 +1314,10 @@ def fam_tls(rng, n, dist):
                        cb=rng.choice([None, [False] * 60]) if kind != "F" else None, data_fault=df)
             if df:
                 b.disconnect(False)
+                if df == "no-close-notify":
+                    # (the completion reply nobody read sits in the TLS stream: the shutdown of the control connection
+                    # may report "application data after close notify" - the client is disconnected all the same)
+                    b.exp[-1]["may_throw"] = True
                 break
         if b.connected:
             r = rng.random()
